@@ -231,9 +231,11 @@ class DriverStep(Lane):
                 obs.append(('no other operation sees this response', z3.BoolVal(all(len(x.sent) == 0 for x in others))))
                 obs.append(('its routing entry is removed, others untouched', z3.And(self.map_is(rm, [p for i, p in enumerate(rpairs) if i != hit_r]), self.map_is(sm, spairs))))
                 obs.append(('result delivery releases exactly that ID', self.inuse_is(o['zs'], d['arr'], [rid])))
+                obs.append(('the connection keeps serving after delivering a result', z3.BoolVal(poll.variant == 'Pending')))
                 return obs
             obs.append(('a response matching no outstanding operation is delivered to nobody', nothing_delivered))
             obs.append(('...and disturbs nothing', z3.And(self.map_is(rm, rpairs), self.map_is(sm, spairs), self.inuse_is(o['zs'], d['arr'], []))))
+            obs.append(('...and the connection keeps serving (an unmatched, late or unsolicited response does not end the driver)', z3.BoolVal(poll.variant == 'Pending')))
             return obs
         if ev_ == 'scrub':
             rid = d['id']
